@@ -183,6 +183,14 @@ func genProbeObject(t *rapid.T) map[string]any {
 		}
 		md["labels"] = l
 	}
+	if rapid.IntRange(0, 2).Draw(t, "servermeta") == 0 {
+		// what an object read from the API server carries besides the fields probes look at
+		md["managedFields"] = []any{map[string]any{"manager": "package-operator", "operation": "Apply", "apiVersion": "v1", "fieldsType": "FieldsV1", "fieldsV1": map[string]any{"f:spec": map[string]any{}}}}
+		md["resourceVersion"] = "41"
+		md["uid"] = "uid-7"
+		md["annotations"] = map[string]any{"package-operator.run/revision": "2"}
+		md["ownerReferences"] = []any{map[string]any{"apiVersion": "package-operator.run/v1alpha1", "kind": "ObjectSet", "name": "os", "uid": "u", "controller": true}}
+	}
 	o["metadata"] = md
 	spec := map[string]any{}
 	if rapid.Bool().Draw(t, "hassize") {
